@@ -34,6 +34,7 @@ type SpecFn struct {
 	Result string
 	Body   string // "" => uninterpreted
 	Pos    string
+	Rec    bool // "specfn rec f(...)": emitted as define-fun-rec over its (pure) arguments instead of being expanded
 }
 
 type FuncContract struct {
@@ -48,6 +49,7 @@ type FuncContract struct {
 	Asserts    []Clause // assert@anchor
 	Modifies   []string
 	ModAll     bool
+	ModCallbacks bool // "modifies callbacks": whatever the methods/functions passed as arguments may write
 	HasMod     bool
 	NoPanic    bool
 	Trusted    bool
@@ -61,6 +63,9 @@ type FuncContract struct {
 	Assumed    bool // from /verif/assumed (external)
 	Used       bool
 	GhostMods  []string
+	Abstractions []Clause // caller-visible postconditions about the ghost view that are NOT verified against the body (assumption, listed in evidence)
+	UsesRepInv   bool     // "uses repinv": representation invariants (repinv declarations) are assumed at field accesses in this function
+	GhostComps []string // ghost heap components ($ghost:...) the function changes besides its heap frame
 	VerifyImpls bool     // interface contract: module implementations are verified against it
 	Aliases    []string // positional parameter names (receiver first) when inherited by an implementation
 	IfaceKey   string
@@ -82,7 +87,7 @@ type Contracts struct {
 }
 
 var clauseKeywords = map[string]bool{
-	"func": true, "prop": true, "arith": true, "requires": true, "ensures": true,
+	"func": true, "prop": true, "arith": true, "requires": true, "ensures": true, "abstraction": true, "repinv": true, "uses": true,
 	"modifies": true, "invariant": true, "nopanic": true, "trusted": true, "pure": true,
 	"specfn": true, "let": true, "assume": true, "typeinv": true, "protect": true,
 	"monotone": true, "results": true, "assert": true, "package": true, "sweep": true,
@@ -168,7 +173,7 @@ func parseContractFile(path string, pkgPath string, assumed bool, cs *Contracts)
 				return fmt.Errorf("%s: duplicate specfn %s", rc.pos, sf.Name)
 			}
 			cs.SpecFns[sf.Name] = sf
-		case "typeinv", "protect", "monotone", "axiom", "ghostfield", "ghostarray", "frame", "lemma", "reads_not", "readafter":
+		case "typeinv", "repinv", "protect", "monotone", "axiom", "ghostfield", "ghostarray", "frame", "lemma", "reads_not", "readafter":
 			cs.Decls = append(cs.Decls, PkgDecl{Kind: rc.kw, Pkg: curPkg, Text: text, Pos: rc.pos, Props: props})
 		default:
 			if cur == nil {
@@ -182,6 +187,10 @@ func parseContractFile(path string, pkgPath string, assumed bool, cs *Contracts)
 				cur.Arith = text
 			case "nopanic":
 				cur.NoPanic = true
+			case "uses":
+				if strings.Contains(text, "repinv") {
+					cur.UsesRepInv = true
+				}
 			case "sweep":
 				cur.Sweep = true
 			case "impls":
@@ -197,7 +206,9 @@ func parseContractFile(path string, pkgPath string, assumed bool, cs *Contracts)
 			case "ghostmod":
 				// ghost variables the function changes (in addition to its computed heap frame)
 				for _, m := range splitTop(text, ',') {
-					if m = strings.TrimSpace(m); m != "" {
+					if m = strings.TrimSpace(m); strings.HasPrefix(m, "$ghost:") {
+						cur.GhostComps = append(cur.GhostComps, m)
+					} else if m != "" {
 						cur.GhostMods = append(cur.GhostMods, m)
 					}
 				}
@@ -207,6 +218,8 @@ func parseContractFile(path string, pkgPath string, assumed bool, cs *Contracts)
 					m = strings.TrimSpace(m)
 					if m == "*" {
 						cur.ModAll = true
+					} else if m == "callbacks" {
+						cur.ModCallbacks = true
 					} else if m != "" && m != "nothing" {
 						cur.Modifies = append(cur.Modifies, m)
 					}
@@ -262,6 +275,8 @@ func parseContractFile(path string, pkgPath string, assumed bool, cs *Contracts)
 					cur.Requires = append(cur.Requires, cl)
 				case "ensures":
 					cur.Ensures = append(cur.Ensures, cl)
+				case "abstraction":
+					cur.Abstractions = append(cur.Abstractions, cl)
 				case "let":
 					cur.Lets = append(cur.Lets, cl)
 				case "assert", "assume", "snap", "apply":
@@ -288,6 +303,10 @@ func parseSpecFn(text, pkg, pos string) (*SpecFn, error) {
 		return nil, fmt.Errorf("%s: bad specfn %q", pos, text)
 	}
 	sf := &SpecFn{Pkg: pkg, Name: strings.TrimSpace(head[:lp]), Result: strings.TrimSpace(head[rp+1:]), Body: body, Pos: pos}
+	if strings.HasPrefix(sf.Name, "rec ") {
+		sf.Rec = true
+		sf.Name = strings.TrimSpace(sf.Name[4:])
+	}
 	params := strings.TrimSpace(head[lp+1 : rp])
 	if params != "" {
 		var pending []string
